@@ -76,6 +76,9 @@ func accountProofs(run *vh.Run) {
 					if !explicit && si != len(snaps)-1 {
 						continue // a nil root means "the latest root"
 					}
+					if explicit && len(sn.root) == 0 && si != len(snaps)-1 {
+						continue // an empty state root (no account yet) cannot be requested: it too means "the latest root"
+					}
 					var reqRoot []byte
 					if explicit {
 						reqRoot = sn.root
